@@ -25,7 +25,8 @@ ASSUMPTIONS = [
     'NOT a proof of panic-freedom: only the four named crash idioms are decided; all other panic-capable sites (index, overflow, unwrap elsewhere) are counted in the evidence as undecided',
     'the non-verbose argument iterator yields exactly 4 bytes for the first argument (checked structurally under C18 D2 for the slice, relied upon here)',
 ]
-MANIFEST = {'text': 'decides four recurring crash idioms exactly (which construct, which guard) and keeps a ledger of explicit panics; reports the count of panic-capable sites no rule speaks about so that green is not read as "cannot crash".',
+MANIFEST = {'text': 'decides four recurring crash idioms exactly (which construct, which guard) and keeps a ledger of explicit panics; reports the count of panic-capable sites no rule speaks about so that green is not read as "cannot crash".'
+                    ' Added: every integer division has a non-zero divisor (constant, guard, or field invariant over all writers); cursor/remaining-bytes parsers keep both in lockstep and read only behind a fresh `remaining >= size` test.',
             'technique': 'static analysis: dominating-guard (deviance) rules, explicit-panic ledger, backward provenance for allocation sizes'}
 
 UNWRAP = ('std::option::Option::<T>::unwrap', 'std::option::Option::<T>::expect')
